@@ -2,6 +2,7 @@ import Rsbdd.Driver.BddCases
 import Rsbdd.Driver.FormulaCases
 import Rsbdd.Driver.ParseCases
 import Rsbdd.Driver.CliCases
+import Rsbdd.Driver.EnvCases
 import Std.Data.HashSet
 
 namespace Rsbdd
@@ -16,6 +17,7 @@ def dispatch (fields : List String) : Verdict :=
   | "C12" :: rest => handleC12 rest
   | "C10" :: rest => handleC10 rest
   | "C11" :: rest => handleC11 rest
+  | "C13" :: rest => handleC13 rest
   | "C02" :: rest => handleC02 rest
   | "C03" :: rest => handleC03 rest
   | "C04" :: rest => handleC04 rest
